@@ -1069,7 +1069,7 @@ Section WInv.
   Lemma push_cancel_in s id y : In y (cancels (push_cancel s id)) -> In y (cancels s) \/ y = id.
   Proof.
     unfold push_cancel. destruct (dropped s); [auto|]. cbn [cancels upd_cancels].
-    rewrite in_app_iff. cbn. tauto.
+    rewrite in_app_iff. cbn. intros [H|[H|[]]]; auto.
   Qed.
 
   Definition fs_pre s id := push_cancel (slot_rx_close (slot_tx_drop s id) id) id.
@@ -1145,5 +1145,111 @@ Section WInv.
       pose proof (count_set_phase is_asg s1 i PAwaiting k Ek) as H.
       cbn [b2n is_asg with_phase c_phase] in H. cbn [s1 calls upd_q] in H.
       rewrite app_length. cbn [length]. lia.
+  Qed.
+
+  (* ---------------------------------------------------------------- the first poll of a call *)
+  Definition NW s : Prop := N.of_nat (length (calls s)) < two64.
+
+  Definition fp_state s i (c : call) : cstate :=
+    let id := next_id s in
+    set_slot (with_id (upd_misc s (N.modulo (id + 1) two64) (handles s) (now s)) i c id) id slot0.
+
+  Lemma GA_set_phase_new s i p k :
+    GAd 1 s -> nth_error (calls s) i = Some k -> c_phase k = PNew -> p <> PNew ->
+    (idp p = true -> c_id k < next_id s /\
+       forall j kj, nth_error (calls s) j = Some kj -> j <> i -> idp (c_phase kj) = true -> c_id kj <> c_id k) ->
+    GAd 0 (set_phase s i p).
+  Proof.
+    intros [A B C] Ek Hk Hp Hid. constructor.
+    - intros j k' Hj Hi. rewrite sp_next_id.
+      destruct (nth_set_phase_inv _ _ _ _ _ Hj) as (k0 & E & Eid & [[Hn ->]|[-> Hph]]).
+      + eapply A; eassumption.
+      + rewrite Eid. rewrite Ek in E. injection E as <-. apply Hid. rewrite <- Hph. exact Hi.
+    - intros j1 j2 k1 k2 H1 H2 I1 I2 Eid.
+      destruct (nth_set_phase_inv _ _ _ _ _ H1) as (k1' & E1 & Eid1 & D1).
+      destruct (nth_set_phase_inv _ _ _ _ _ H2) as (k2' & E2 & Eid2 & D2).
+      destruct D1 as [[N1 ->]|[-> P1]], D2 as [[N2 ->]|[-> P2]].
+      + eapply B; eassumption.
+      + exfalso. rewrite Ek in E2. injection E2 as <-.
+        destruct Hid as [_ Hid]; [rewrite <- P2; exact I2|]. eapply (Hid j1 k1'); try eassumption. congruence.
+      + exfalso. rewrite Ek in E1. injection E1 as <-.
+        destruct Hid as [_ Hid]; [rewrite <- P1; exact I1|]. eapply (Hid j2 k2'); try eassumption. congruence.
+      + reflexivity.
+    - rewrite sp_next_id, sp_length.
+      pose proof (count_set_phase is_new s i p k Ek) as H.
+      assert (X : is_new (with_phase k p) = false) by (unfold is_new; cbn; destruct p; congruence).
+      assert (Y : is_new k = true) by (unfold is_new; rewrite Hk; reflexivity).
+      rewrite X, Y in H. cbn [b2n] in H. lia.
+  Qed.
+
+  Lemma GC_set_phase_fresh s i p k :
+    GC s -> nth_error (calls s) i = Some k -> (forall x, In x (cancels s) -> x <> c_id k) ->
+    GC (set_phase s i p).
+  Proof.
+    intros [A B] Ek Hf. constructor; rewrite ?sp_cancels, ?sp_next_id; [exact A|].
+    intros x j k' Hx Hj Hi.
+    destruct (nth_set_phase_inv _ _ _ _ _ Hj) as (k0 & E & Eid & [[Hn ->]|[-> Hph]]).
+    - eapply B; eassumption.
+    - rewrite Eid. rewrite Ek in E. injection E as <-. intro X. eapply Hf; [exact Hx|congruence].
+  Qed.
+
+  Lemma first_poll_facts s i c :
+    IX s -> GL s -> NW s -> nth_error (calls s) i = Some c -> c_phase c = PNew ->
+    let id := next_id s in
+    let s1 := fp_state s i c in
+    GAd 1 s1 /\ GC s1 /\ GW 0 s1 /\ GL s1 /\
+    nth_error (calls s1) i = Some (with_cid c id) /\ next_id s1 = id + 1 /\
+    (forall j kj, nth_error (calls s1) j = Some kj -> j <> i -> idp (c_phase kj) = true -> c_id kj <> id) /\
+    (forall x, In x (cancels s1) -> x <> id) /\
+    rx_closed s1 = rx_closed s /\ queue s1 = queue s /\ permits s1 = permits s /\
+    waiters s1 = waiters s.
+  Proof.
+    intros [[A1 A2 A3] [C1 C2] W] G Hnw Ec Hp id s1.
+    assert (Ecalls : calls s1 = set_nth i (with_cid c id) (calls s)) by reflexivity.
+    assert (Hpos : (0 < count is_new (calls s))%nat).
+    { eapply count_pos; [exact Ec|]. unfold is_new. rewrite Hp. reflexivity. }
+    assert (Enid : next_id s1 = id + 1).
+    { change (next_id s1) with (N.modulo (id + 1) two64). apply N.mod_small.
+      unfold NW in Hnw. fold id in A3. lia. }
+    assert (Hother : forall j kj, nth_error (calls s1) j = Some kj -> j <> i -> nth_error (calls s) j = Some kj).
+    { intros j kj Hj Hn. rewrite Ecalls in Hj. apply nth_set_nth_inv in Hj.
+      destruct Hj as [[_ Hj]|[Hj _]]; [exact Hj|contradiction]. }
+    assert (Hi : nth_error (calls s1) i = Some (with_cid c id)).
+    { rewrite Ecalls, nth_set_nth, Nat.eqb_refl, Ec. reflexivity. }
+    assert (Hidp : forall j kj, nth_error (calls s1) j = Some kj -> idp (c_phase kj) = true -> j <> i).
+    { intros j kj Hj Hidp ->. rewrite Hi in Hj. injection Hj as <-. cbn in Hidp. rewrite Hp in Hidp. discriminate. }
+    split; [|split; [|split; [|split; [|split; [exact Hi|split; [exact Enid|split; [|split]]]]]]].
+    - constructor.
+      + intros j kj Hj Hid. rewrite Enid. pose proof (A1 j kj (Hother _ _ Hj (Hidp _ _ Hj Hid)) Hid). fold id in H. lia.
+      + intros j1 j2 k1 k2 H1 H2 I1 I2.
+        apply (A2 j1 j2 k1 k2); [apply Hother; [exact H1|eapply Hidp; eassumption]
+                                |apply Hother; [exact H2|eapply Hidp; eassumption]|exact I1|exact I2].
+      + rewrite Enid, Ecalls, set_nth_length.
+        pose proof (count_set_nth is_new i (with_cid c id) c (calls s) Ec) as H.
+        assert (X : is_new (with_cid c id) = is_new c) by reflexivity. rewrite X in H. fold id in A3. lia.
+    - constructor.
+      + intros x Hx. rewrite Enid. pose proof (C1 x Hx). fold id in H. lia.
+      + intros x j kj Hx Hj Hid. eapply C2; [exact Hx|exact (Hother _ _ Hj (Hidp _ _ Hj Hid))|exact Hid].
+    - destruct W as [W1 W2 W3 W4 W5 W6]. constructor; try assumption.
+      + intros w Hw. destruct (W1 w Hw) as (k & Ek & Ep). exists k. split; [|exact Ep].
+        rewrite Ecalls, nth_set_nth. destruct (Nat.eqb_spec w i) as [->|]; [congruence|exact Ek].
+      + intros j kj Hj Hph. eapply W4; [|exact Hph]. apply Hother; [exact Hj|].
+        eapply Hidp; [exact Hj|]. rewrite Hph. reflexivity.
+      + intro Hc. change (queue s1) with (queue s). change (permits s1) with (permits s).
+        change (q_cap s1) with (q_cap s). rewrite <- (W6 Hc). rewrite Ecalls.
+        pose proof (count_set_nth is_asg i (with_cid c id) c (calls s) Ec) as H.
+        assert (X : is_asg (with_cid c id) = is_asg c) by reflexivity. rewrite X in H. lia.
+    - intros j kj Hj Hph.
+      assert (Hn : j <> i) by (eapply Hidp; [exact Hj|rewrite Hph; reflexivity]).
+      pose proof (Hother _ _ Hj Hn) as Hj'.
+      pose proof (A1 j kj Hj' ltac:(rewrite Hph; reflexivity)) as Hlt. fold id in Hlt.
+      destruct (G j kj Hj' Hph) as [L|[L|L]]; unfold loc.
+      + left. exact L.
+      + right; left. exact L.
+      + right; right. unfold s1, fp_state. rewrite get_set_slot.
+        destruct (N.eqb_spec (c_id kj) (next_id s)) as [E|_]; [fold id in E; lia|]. exact L.
+    - intros j kj Hj Hn Hid. pose proof (A1 j kj (Hother _ _ Hj Hn) Hid). fold id in H. lia.
+    - intros x Hx. pose proof (C1 x Hx). fold id in H. lia.
+    - repeat split; reflexivity.
   Qed.
 End WInv.
